@@ -156,5 +156,12 @@ def amplifiers():
         ("format_many", "local n=math.min(%d,200) local t={} for i=1,n do t[i]=i end emit(#string.format(string.rep('%%d',n),table.unpack(t)))"),
         ("select_far", "emit(select(math.min(%d,250),table.unpack((function() local t={} for i=1,250 do t[i]=i end return t end)())))"),
         ("next_big_table", "local n=math.min(%d,300000) local t={} for i=1,n do t[i]=i end for i=1,n-1 do t[i]=nil end emit(next(t))"),
+        # file reads and buffers whose size the program chooses (lib/iolib): charged before they are allocated
+        ("io_read_n", "local f=io.open('/dev/zero') emit(#f:read(%d))"),
+        ("io_read_n_twice", "local n=%d local f=io.open('/dev/zero') emit(#f:read(n//2, n//2))"),
+        ("io_read_line", "local n=%d local f=io.open('/dev/zero') emit(#f:read('l'))"),
+        ("io_read_all", "local n=%d local f=io.open('/dev/zero') emit(#f:read('a'))"),
+        ("io_lines_n", "for s in io.lines('/dev/zero', %d) do emit(#s) break end"),
+        ("io_setvbuf", "local f=io.open('/dev/null','w') emit(f:setvbuf('full',%d))"),
         ("len_border", "local n=math.min(%d,300000) local t={} for i=1,n do t[i]=i end for i=n,2,-1 do t[i]=nil end emit(#t)"),
     ]
